@@ -13,7 +13,7 @@
    What remains checked by execution only is the tie of M2 to the code (engine E1: contents of EVERY live handle after EVERY step). *)
 From stdpp Require Import gmap.
 From Coq Require Import NArith.
-From BV Require Import Base BufMut Heap Spec SpecLaws HeapWF HeapWFOps HeapWFMain HeapFrame SizeInv RefineM1.
+From BV Require Import Base BufMut Heap Spec SpecLaws HeapWF HeapWFOps HeapWFMain HeapFrame SizeInv RefineM1 RefineCor.
 
 Theorem C01_frame : forall cap uniq o s s' r h', sstep cap uniq o s = SOk s' r -> h' ∉ touched o -> (h' < snext s)%positive ->
   vals s' !! h' = vals s !! h'.
@@ -43,6 +43,10 @@ Proof. exact m2_refines_m1_reachable. Qed.
 Theorem C01_size_invariant : forall orcs n s, (forall i, oracle_sane (orcs i)) -> reach orcs n s ->
   forall k st, sts s !! k = Some st -> s_cls st = SHeap \/ s_cls st = SDangling -> (s_size st <= isize_max)%N.
 Proof. exact reach_hsz. Qed.
+(* whole histories, of any length, from the empty state, in either address parity: the return values are those of M1 and the state reached
+   abstracts to the state M1 reaches *)
+Theorem C01_history_refinement : forall orcs odd ops rs s', (forall i, oracle_sane (orcs i)) -> m2steps orcs 0 (hst0 odd) ops rs s' -> m1steps sst0 ops rs (abs s').
+Proof. exact history_refinement_from_empty. Qed.
 (* where M1 says the call is out of contract (whatever uniqueness bit), M2 does not return *)
 Corollary C01_contract_violation_does_not_return : forall orcs n s o r s' e', (forall i, oracle_sane (orcs i)) -> reach orcs n s -> op_ok s o ->
   (forall uniq, sstep (cap_of s o) uniq o (abs s) = SPanic) -> run_op (orcs n) o s <> OK r s' e'.
@@ -73,3 +77,4 @@ Print Assumptions C01_representation_refines_reference.
 Print Assumptions C01_size_invariant.
 Print Assumptions C01_contract_violation_does_not_return.
 Print Assumptions C01_refinement_nonvacuous.
+Print Assumptions C01_history_refinement.
